@@ -28,14 +28,16 @@
     - [SyncHist_pricing_tx_exact], [SyncHist_pricing_tx_le], [SyncHist_pricing_tx_eq_iff] : after a
         successful pricing transaction booked = delegated (fresh histories) / booked <= delegated with
         equality iff delegated <= booked held before (all histories);
-    - [SyncHist_reinst_surplus_witness] : delegated > booked does arise by re-instantiating the hub over
-        live delegations, and no later check removes it;
     - [SyncHist_msg_raise], [SyncHist_run_raise], [SyncHist_step_raise], [SyncHist_history_raise] : the
         booked total rises only by the payments of executed Bond / BondForStSei / BondRewards messages,
         for every operation of the alphabet; [SyncHist_step_no_bond] : no bond message -> never raised;
-    - [SyncHist_st_rise_reachable] : the one-unit rise of the stSei pool in a check occurs in a reachable
-        world (history witness);
-    - examples [SyncHist_ex_*] : a slash recognised by each kind of pricing transaction. *)
+    - [SyncHist_first_check_op], [SyncHist_pricing_op_exact], [SyncHist_check_writes_off_unrecognised],
+      [SyncHist_slash_then_check], [SyncHist_unrecognised_exact_prefix] : the same per operation of a
+        history; the explicit CheckSlashing writes off exactly the ghost; the shape "history in sync, one
+        slashing event, CheckSlashing"; every visited world (prefixes);
+    - in Proofs/SyncHistEx.v: [SyncHist_st_rise_reachable] (the one-unit rise of the stSei pool in a check
+        occurs in a reachable world), [SyncHist_reinst_surplus_witness], and the examples [SyncHist_ex_*]
+        (a slash recognised by each kind of pricing transaction). *)
 From Krp Require Import Tactics Prelude Fixed FMap Types Env Registry Cw20 Reward Dispatcher Hub Exec
      ExecP Hist Inv RegistryP HubFrame HubAdmin BooksEnv BooksHub BooksP SlashP ExitWorld.
 From Coq Require Import ZArith.
@@ -824,3 +826,148 @@ Proof.
   - rewrite B in D1. rewrite D1 by lia. split; [lia|]. split; [reflexivity|exact C].
 Qed.
 
+
+(** ** 9. prefixes, and the shape "history in sync, one slashing event, CheckSlashing" *)
+Lemma SyncHist_run_ops_app a b w : run_ops (a ++ b) w = run_ops b (run_ops a w).
+Proof. unfold run_ops. apply fold_left_app. Qed.
+
+Lemma SyncHist_fresh_app a b : forall w,
+  SyncHist_fresh (a ++ b) w <-> SyncHist_fresh a w /\ SyncHist_fresh b (run_ops a w).
+Proof.
+  induction a as [|o a IH]; intros w; cbn [app SyncHist_fresh].
+  - unfold run_ops. cbn [fold_left]. tauto.
+  - rewrite IH. unfold run_ops. cbn [fold_left]. tauto.
+Qed.
+
+Lemma SyncHist_ufold_app a b : forall w u,
+  SyncHist_ufold (a ++ b) w u = SyncHist_ufold b (run_ops a w) (SyncHist_ufold a w u).
+Proof.
+  induction a as [|o a IH]; intros w u; cbn [app SyncHist_ufold]; [reflexivity|].
+  rewrite IH. unfold run_ops. cbn [fold_left]. reflexivity.
+Qed.
+
+(** every visited world is the end of a prefix history, and a prefix of a fresh history is fresh *)
+Corollary SyncHist_unrecognised_exact_prefix ut a b :
+  SyncHist_fresh (a ++ b) (empty_world ut) ->
+  let w := run_ops a (empty_world ut) in
+  forall h, w_hub w = Some h ->
+    hp_underlying (h_params h) = usei /\
+    booked h = delegated (w_env w) A_hub + SyncHist_ufold a (empty_world ut) 0.
+Proof. intros Hf. apply SyncHist_unrecognised_exact. apply SyncHist_fresh_app in Hf. tauto. Qed.
+
+(** books in sync, then ONE slashing event, then CheckSlashing: the check writes off exactly the
+    stake the event removed and books exactly what survived, shared pro rata *)
+Theorem SyncHist_slash_then_check ut ops v num den unb sender w' tr h :
+  SyncHist_fresh ops (empty_world ut) ->
+  SyncHist_ufold ops (empty_world ut) 0 = 0 ->
+  let w0 := run_ops ops (empty_world ut) in
+  let w := fst (step w0 (OSlash v num den unb)) in
+  w_hub w = Some h ->
+  step w (OTx sender A_hub (WHub HCheckSlashing) []) = (w', (true, tr)) ->
+  exists h', w_hub w' = Some h' /\ w_env w' = w_env w /\
+    w_hub w0 = Some h /\ booked h = delegated (w_env w0) A_hub /\
+    booked h' + (delegated (w_env w0) A_hub - delegated (w_env w) A_hub) = booked h /\
+    booked h' = delegated (w_env w) A_hub /\
+    SyncHist_synced (delegated (w_env w) A_hub) (hs_bb (h_state h)) (hs_bst (h_state h)) (h_state h').
+Proof.
+  intros Hf Hz w0 w Hh H.
+  assert (Hf' : SyncHist_fresh (ops ++ [OSlash v num den unb]) (empty_world ut)).
+  { apply SyncHist_fresh_app. split; [exact Hf|]. cbn [SyncHist_fresh SyncHist_fresh_op]. tauto. }
+  assert (Ew : run_ops (ops ++ [OSlash v num den unb]) (empty_world ut) = w).
+  { rewrite SyncHist_run_ops_app. reflexivity. }
+  assert (Eu : SyncHist_ufold (ops ++ [OSlash v num den unb]) (empty_world ut) 0
+               = delegated (w_env w0) A_hub - delegated (w_env w) A_hub).
+  { rewrite SyncHist_ufold_app, Hz. cbn [SyncHist_ufold SyncHist_ustep]. unfold SyncHist_removed. reflexivity. }
+  assert (Hh0 : w_hub w0 = Some h).
+  { subst w. cbn [step] in Hh. destruct (ev_slash (w_env w0) v num den unb); cbn [fst w_hub set_env] in Hh; exact Hh. }
+  destruct (SyncHist_unrecognised_exact ut ops Hf h Hh0) as [_ Hb0]. fold w0 in Hb0. rewrite Hz in Hb0.
+  pose proof (SyncHist_check_writes_off_unrecognised ut (ops ++ [OSlash v num den unb]) sender w' tr h Hf') as K.
+  cbv zeta in K. rewrite Ew, Eu in K. destruct (K Hh H) as (h' & A & B & C & D1 & D2).
+  exists h'. split; [exact A|]. split; [exact B|]. split; [exact Hh0|]. split; [lia|]. split; [exact C|].
+  split; [rewrite <- B; exact D1|exact D2].
+Qed.
+
+(** ** 10. the definitions, restated for the property file *)
+Lemma SyncHist_def_quantities :
+  (forall e x, delegated e x = sumN (map snd (all_delegations e x))) /\
+  (forall h, booked h = hs_bb (h_state h) + hs_bst (h_state h)) /\
+  (forall w, EntWf w <-> DelWf (w_env w) /\
+     forall h, w_hub w = Some h -> booked h = 0 \/ all_delegations (w_env w) A_hub <> []).
+Proof.
+  split; [reflexivity|]. split; [reflexivity|]. intros w. unfold EntWf, Ent. tauto.
+Qed.
+
+Lemma SyncHist_def_pricing :
+  (forall hm, is_pricing hm =
+     match hm with
+     | HBond | HBondSt | HBondRewards | HCheckSlashing => true
+     | HReceive _ _ HkUnbond | HReceive _ _ HkConvert => true
+     | _ => false
+     end) /\
+  (forall s m, is_pricing_msg (s, m) =
+     match m with MWasm to (WHub hm) _ => (to =? A_hub) && is_pricing hm | _ => false end) /\
+  (forall w o, SyncHist_priced w o = existsb is_pricing_msg (snd (snd (step w o)))).
+Proof. repeat split. Qed.
+
+Lemma SyncHist_def_synced A bb bst s1 : SyncHist_synced A bb bst s1 <->
+  (A < bb + bst ->
+     hs_bb s1 + hs_bst s1 = A /\
+     hs_bb s1 = A * (bb * D / (bb + bst)) / D /\ hs_bst s1 = A - hs_bb s1 /\
+     hs_bb s1 <= bb /\
+     (A <= LIM ->
+        (hs_bb s1 * (bb + bst) <= A * bb /\ A * bb < (hs_bb s1 + 2) * (bb + bst)) /\
+        (A * bst <= hs_bst s1 * (bb + bst) /\ hs_bst s1 * (bb + bst) < A * bst + 2 * (bb + bst)) /\
+        hs_bst s1 <= bst + 1)) /\
+  (bb + bst <= A -> hs_bb s1 = bb /\ hs_bst s1 = bst).
+Proof. reflexivity. Qed.
+
+Lemma SyncHist_def_ghosts :
+  (forall w o, SyncHist_removed w o =
+     delegated (w_env w) A_hub - delegated (w_env (fst (step w o))) A_hub) /\
+  (forall w o g, SyncHist_gstep w o g =
+     match o with
+     | OReset _ => 0%Z
+     | OInstHub _ _ _ _ _ _ _ _ => (- Z.of_N (delegated (w_env w) A_hub))%Z
+     | OSlash _ _ _ _ => (g + Z.of_N (SyncHist_removed w o))%Z
+     | OTx _ _ _ _ => if SyncHist_priced w o then Z.min g 0 else g
+     | _ => g
+     end) /\
+  (forall w o u, SyncHist_ustep w o u =
+     match o with
+     | OReset _ => 0
+     | OInstHub _ _ _ _ _ _ _ _ => 0
+     | OSlash _ _ _ _ => u + SyncHist_removed w o
+     | OTx _ _ _ _ => if SyncHist_priced w o then 0 else u
+     | _ => u
+     end) /\
+  (forall ops w g, SyncHist_gfold ops w g =
+     match ops with [] => g | o :: r => SyncHist_gfold r (fst (step w o)) (SyncHist_gstep w o g) end) /\
+  (forall ops w u, SyncHist_ufold ops w u =
+     match ops with [] => u | o :: r => SyncHist_ufold r (fst (step w o)) (SyncHist_ustep w o u) end).
+Proof. repeat split; intros; try reflexivity; destruct ops; reflexivity. Qed.
+
+Lemma SyncHist_def_envelope :
+  (forall o, SyncHist_usei_op o <->
+     match o with OInstHub _ _ _ _ _ _ und _ => und = usei | _ => True end) /\
+  (forall w o, SyncHist_fresh_op w o <->
+     match o with
+     | OInstHub _ _ _ _ _ _ und _ => und = usei /\ delegated (w_env w) A_hub = 0
+     | _ => True
+     end) /\
+  (forall ops w, SyncHist_fresh ops w <->
+     match ops with [] => True | o :: r => SyncHist_fresh_op w o /\ SyncHist_fresh r (fst (step w o)) end).
+Proof. repeat split; try tauto; destruct ops; cbn [SyncHist_fresh]; tauto. Qed.
+
+Lemma SyncHist_def_pay :
+  (forall hm, SyncHist_is_bond hm = match hm with HBond | HBondSt | HBondRewards => true | _ => false end) /\
+  (forall s m, SyncHist_pay (s, m) =
+     match m with
+     | MWasm to (WHub hm) funds => if (to =? A_hub) && SyncHist_is_bond hm then sumN (map snd funds) else 0
+     | _ => 0
+     end) /\
+  (forall ops w p, SyncHist_pfold ops w p =
+     match ops with
+     | [] => p
+     | o :: r => SyncHist_pfold r (fst (step w o)) (p + sumN (map SyncHist_pay (snd (snd (step w o)))))
+     end).
+Proof. repeat split; intros; try reflexivity; destruct ops; reflexivity. Qed.
